@@ -11,6 +11,7 @@ Inductive lsig :=
 | SigPlume (ncoords ndepths naxes necc nrot : nat)
 | SigGaussian (ndepths ntemps nsigmas : nat)
 | SigFractions (ncomp nfrac : nat)
+| SigSmooth (ncomp nfirst nsecond : nat)                              (* smooth composition: top / bottom (center / side) fractions *)
 | SigGrainsUniform (ncomp nrot nsizes : nat)
 | SigGrainsRandom (ncomp nsizes nnorm : nat)
 | SigGrainsDeflected (ncomp nsizes nnorm ndefl nbasis : nat)
@@ -40,6 +41,7 @@ Definition sig_ok (s : lsig) : bool :=
   | SigPlume nc nd na ne nr => (nd =? nc) && (na =? nc) && (ne =? nc) && (nr =? nc)
   | SigGaussian nd nt ns => (nt =? nd) && (ns =? nd)
   | SigFractions nc nf => nc =? nf
+  | SigSmooth nc n1 n2 => (nc =? n1) && (nc =? n2)
   | SigGrainsUniform nc nr ns => (nc =? nr) && (nc =? ns)
   | SigGrainsRandom nc ns nn => (nc =? ns) && (nc =? nn)
   | SigGrainsDeflected nc ns nn nd nb => (nc =? ns) && (nc =? nn) && (nc =? nd) && (nc =? nb)
